@@ -78,7 +78,8 @@ def cq_view(o):
 
 def case_to_coq(c, cleanup):
     if c["fam"] == "hist":
-        return "hist_case %d %s %s %s" % (c["id"], C.cq_bool(cleanup), C.cq_list([cq_event(e) for e in c["events"]]),
+        evs = c["events"][:c["fatal"]["at"]] if c.get("fatal") else c["events"]   # the process died: the completed prefix
+        return "hist_case %d %s %s %s" % (c["id"], C.cq_bool(cleanup), C.cq_list([cq_event(e) for e in evs]),
                                           C.cq_list([cq_view(o) for o in c["obs"]]))
     if c["fam"] == "names":
         o = c["obs"]
@@ -86,6 +87,34 @@ def case_to_coq(c, cleanup):
             c["id"], C.cq_bytes(c.get("ns_bytes") or []), C.cq_bytes(c.get("name_bytes") or []),
             C.cq_bytes(o["ing"]), C.cq_bytes(o["ing_key"]), C.cq_bytes(o["vs"]), C.cq_bytes(o["vs_key"]),
             C.cq_bytes(o["ts"]), C.cq_bytes(o["ts_key"]), C.cq_bytes(o["key"]))
+    if c["fam"] == "nsl":
+        evs, nss = [], []
+        for e in c["script"]:
+            r = e.get("r") or {}
+            if r.get("ns") and r["ns"] not in nss:
+                nss.append(r["ns"])
+            if e["op"] == "put":
+                evs.append("(NPut {| o_kind := %s; o_ns := %s; o_name := %s; o_stamp := %s; o_ok := %s; o_host := %s |})" % (
+                    KIND[r["kind"]], C.cq_str(r["ns"]), C.cq_str(r["name"]), C.cq_z(r["stamp"]),
+                    C.cq_bool(r.get("class") == "nginx" and not r.get("invalid")), C.cq_str(r.get("host", ""))))
+            elif e["op"] == "del":
+                evs.append("(NDel %s %s %s)" % (KIND[r["kind"]], C.cq_str(r["ns"]), C.cq_str(r["name"])))
+            elif e["op"] == "unlabel":
+                evs.append("(NUnlabel %s)" % C.cq_str(e["ns"]))
+            else:
+                evs.append("NDrain")
+        obs = []
+        for k, o in enumerate(c["obs"]):
+            view = cq_view({"confd": o["confd"], "stream": o["stream"], "hosts": o["hosts"],
+                            "state": {"ingresses": o["watched"], "mergeable": [], "vs": [], "ts": []}})
+            obs.append("(%s, %s)" % (C.cq_list([cq_add(r) for r in (c["expect"][k] or [])]), view))
+        return "nsl_case %d %s %s %s" % (c["id"], cq_strs(sorted(nss)), C.cq_list(evs), C.cq_list(obs))
+    if c["fam"] == "namepair":
+        order = ("ing", "ing_key", "vs", "vs_key", "ts", "ts_key", "key")
+        return "namepair_case %d %s %s %s %s %s %s" % (
+            c["id"], C.cq_bytes(c.get("ns_bytes") or []), C.cq_bytes(c.get("name_bytes") or []),
+            C.cq_bytes(c.get("ns2_bytes") or []), C.cq_bytes(c.get("name2_bytes") or []),
+            C.cq_list([C.cq_bytes(c["obs"]["a"][k]) for k in order]), C.cq_list([C.cq_bytes(c["obs"]["b"][k]) for k in order]))
     if c["fam"] == "mgr":
         ops = []
         for o in c.get("mops") or []:
@@ -99,7 +128,7 @@ def case_to_coq(c, cleanup):
 
 
 MFAM = {"conf": "MConf", "stream": "MStream", "hosts": "MHosts", "main": "MMain", "secret": "MSecret", "dhparam": "MDhparam", "ap": "MAp"}
-EVALUATED = ("hist", "names", "mgr")
+EVALUATED = ("hist", "names", "mgr", "namepair", "nsl")
 
 
 def has_error(c):
@@ -174,18 +203,34 @@ def judge(run, cases, res):
     for row in res:
         cid, agree, spec, nontrivial, tag, bits, first_s, first_x = row
         c = byid[cid]
-        canon = {k: c.get(k) for k in ("fam", "events", "ns_bytes", "name_bytes", "plus", "mops")}
+        canon = {k: c.get(k) for k in ("fam", "events", "script", "ns_bytes", "name_bytes", "ns2_bytes", "name2_bytes", "plus", "mops")}
         run.count_case(canon, bool(nontrivial))
         run.cov["traces_validated_against_impl"] += 1
         fam = run.cov.setdefault("by_family", {})
         key = "%s:%s" % (c["fam"], c["class"])
         fam[key] = fam.get(key, 0) + 1
+        if c["fam"] == "hist" and c.get("fatal"):
+            judge_fatal(run, c)
         if c["fam"] == "hist":
             run.cov["events_validated"] = run.cov.get("events_validated", 0) + len(c["events"])
             for p in step_problems(c):
                 run.failing({"kind": "projection"}, [c],
                             "case %d (%s): %s" % (cid, c["class"], p), theorem="projection of the implementation's files", found_input=False)
         if not spec:
+            if c["fam"] == "nsl":
+                judge_nsl(run, c, first_s)
+                continue
+            if c["fam"] == "namepair":
+                a = {k: bytes(v).decode("latin-1") for k, v in c["obs"]["a"].items()}
+                b = {k: bytes(v).decode("latin-1") for k, v in c["obs"]["b"].items()}
+                shared = sorted(k for k in a if a[k] == b[k])
+                run.failing({"kind": "collision", "scheme": "+".join(shared) or "delete-name", "fam": "namepair"}, [c],
+                            "two different DNS-legal identities %s/%s and %s/%s get the same name from %s (%s), or an identity is deleted under "
+                            "another name than it is written under (case %d, class %s)"
+                            % (bytes(c["ns_bytes"]).decode(), bytes(c["name_bytes"]).decode()[-24:], bytes(c["ns2_bytes"]).decode(),
+                               bytes(c["name2_bytes"]).decode()[-24:], shared, (a.get(shared[0]) if shared else "")[-40:], cid, c["class"]),
+                            theorem="Files.Cases.namepair_case (vs_file_name_injective / ts_file_name_injective on the real helpers)")
+                continue
             if c["fam"] == "mgr":
                 op = c["mops"][first_s] if 0 <= first_s < len(c["mops"]) else None
                 run.failing({"kind": "spec", "fam": "mgr", "family": (op or {}).get("fam"), "op": (op or {}).get("op")}, [c],
@@ -218,11 +263,62 @@ def judge(run, cases, res):
             step = c.get("events", [None])[first_x] if c["fam"] == "hist" and 0 <= first_x < len(c["events"]) else None
             if c["fam"] == "mgr" and 0 <= first_x < len(c["mops"]):
                 step = c["mops"][first_x]
+            if c["fam"] == "nsl":
+                step = {"drain": first_x, "script": c["script"]}
             run.failing({"kind": "correspondence", "fam": c["fam"]}, [c],
                         "model and implementation disagree (family %s, class %s, case %d, first at step %d: %s)%s"
                         % (c["fam"], c["class"], cid, first_x, json.dumps(step)[:200],
                            "" if not spec else " while the specification still holds on the listing"),
                         theorem="correspondence Files.Model ~ internal/configs/configurator.go + internal/nginx/manager.go", found_input=False)
+
+
+NAME_MAX = 255
+
+
+def path_len(kind, ns, name):
+    return len(ns.encode()) + len(name.encode()) + (6 if kind in ("ing", "ming") else 9)
+
+
+def event_adds(e):
+    if e["op"] == "add":
+        return [e["res"]]
+    return e.get("adds") or []
+
+
+def file_of(kind, ns, name):
+    return ("%s-%s.conf" % (ns, name)) if kind in ("ing", "ming") else "%s_%s_%s.conf" % (kind, ns, name)
+
+
+def judge_nsl(run, c, k):
+    """S failed at drain k: name the files that are there without a served owner / missing, and why their owner is not served"""
+    o, exp = c["obs"][k], c["expect"][k] or []
+    want = {file_of(r["kind"], r["ns"], r["name"]) for r in exp}
+    have = {f["file"] for f in o["confd"]} | {f["file"] for f in o["stream"]}
+    cause_of = {file_of(u["kind"], u["ns"], u["name"]): u["cause"] for u in (c["unserved"][k] or [])}
+    extra, missing = sorted(have - want), sorted(want - have)
+    causes = sorted({cause_of.get(f, "unknown") for f in extra})
+    what = ("after the work queue drained (drain %d of case %d, class %s) the files on disk are not the files of the served resources: "
+            "left over %s (owner not served because: %s), missing %s, passthrough hosts %s" % (k, c["id"], c["class"], extra, causes, missing, o["hosts"]))
+    if extra and not missing and causes == ["deleted-behind-namespace-task"]:
+        run.failing({"kind": "unwatched-namespace-leftover", "cause": "deleted-behind-namespace-task"}, [c], what, theorem="C10_unwatched_namespace_refuted")
+    else:
+        run.failing({"kind": "spec", "fam": "nsl", "cause": "+".join(causes) or "missing"}, [c], what, theorem="Files.Spec.spec_ok")
+
+
+def judge_fatal(run, c):
+    """the process running the history ended: known only when the event writes a file whose name exceeds NAME_MAX"""
+    at = c["fatal"]["at"]
+    e = c["events"][at] if at < len(c["events"]) else None
+    too_long = [r for r in (event_adds(e) if e else []) if path_len(r["kind"], r["ns"], r["name"]) > NAME_MAX]
+    what = "the controller process ends (exit %s) while executing event %d of case %d (%s): %s" % (
+        c["fatal"]["exit"], at, c["id"], c["class"], json.dumps(e)[:160])
+    if too_long:
+        r = too_long[0]
+        run.failing({"kind": "name-too-long", "effect": "process-exit"}, [c],
+                    what + " [file name of %s %s/...%s is %d bytes > NAME_MAX]" % (r["kind"], r["ns"], r["name"][-12:], path_len(r["kind"], r["ns"], r["name"])),
+                    theorem="C10_file_name_length_refuted")
+    else:
+        run.failing({"kind": "process-exit", "fam": "hist"}, [c], what, theorem="Files.Spec.spec_ok")
 
 
 TRUSTED = [
@@ -265,7 +361,7 @@ def run_cases(run, args, tag, trace=False):
 
 
 def check(run):
-    n = 900 if run.tier == "quick" else 12000
+    n = 600 if run.tier == "quick" else 10000
     run.proof_obligations()
     cases = run_cases(run, ["-seed", str(run.seed), "-n", str(n), "-tier", run.tier], run.tier)
     cleanup = cleanup_variant(cases)
